@@ -58,7 +58,7 @@ def run(ctx) -> int:
     flags = semcheck.flags_only("cleanup")
     cases = semprop.oracle_cases(ctx, [flags], "voc", 130 if ctx.quick() else 700, 90 if ctx.quick() else 3000,
                                  origins={"cleanup", "ast", "normalize", "unused"}, n_inst=5,
-                                 extra_programs=EXTRA + extra)
+                                 extra_programs=EXTRA + extra, n_hand=len(EXTRA))
     semprop.run_oracle(ctx, cases, None)
     return core.finish(ctx, LEVEL, TRUSTED,
                        ["the schema's side condition is not derived from the syntactic mappings in Lean (validated by the oracle)",
